@@ -251,6 +251,14 @@ fn build_variable_evaluator(variable: &Variable) -> Result<VariableEvaluatorFn> 
       }
       (variable_name.clone(), value_null!())
     }),
+    "Any" => Box::new(move |value: &Value, _: &ItemDefinitionEvaluator| {
+      if let Value::Context(ctx) = value {
+        if let Some(v) = ctx.get_entry(&variable_name) {
+          return (variable_name.clone(), v.clone());
+        }
+      }
+      (variable_name.clone(), value_null!())
+    }),
     _ => Box::new(move |value: &Value, item_definition_evaluator: &ItemDefinitionEvaluator| {
       if let Value::Context(ctx) = value {
         if let Some(entry_value) = ctx.get_entry(&variable_name) {
